@@ -229,6 +229,15 @@ EvSerde(e) ==
     /\ UNCHANGED <<m, fe>>
     /\ SnapOk(m, e)
 
+\* C20: a (possibly malformed) session document is installed: refused with an error (ok = 0: nothing changes)
+\* or accepted (ok = 1): the session it describes becomes the initial condition of what follows - every later
+\* operation is still held to the specification, in particular it must not panic.
+EvSetSession(e) ==
+    /\ Chk("C20 deserialisation does not panic", TRUE, e.ok \in {0, 1})
+    /\ m' = IF e.ok = 1 /\ e.sess.has = 1 THEN [m EXCEPT !.act = "joined", !.devNonce = None, !.appKey = NoKey, !.sess = SessOf(e.sess)] ELSE m
+    /\ UNCHANGED fe
+    /\ SnapOk(m', e)
+
 \* queue of delivered downlinks is bounded by the device (D = 4): oldest entries are kept, a push on
 \* a full queue is dropped
 PushDl(q, d) == IF d = <<>> THEN q ELSE IF Len(q) >= 4 THEN q ELSE q \o d
@@ -245,6 +254,14 @@ CanTx(mm, isJoin) ==
     IF isJoin THEN TxChoices(mm, TRUE) # {} ELSE CanTransmitData(mm.region, mm.plan, mm.cfg.dr)
 StuckKnown(mm, isJoin, e) ==
     e.resp.k \in {"Hang", "Panic"} /\ e.calls = <<>> /\ ~CanTx(mm, isJoin) /\ IsAllowed("no-usable-channel")
+
+\* KNOWN FINDING (open, S15): send() with application data on port 0, or with a payload that does not fit a
+\* 255-byte frame, ends in panic! instead of an error.
+MisuseKnown(mm, e) ==
+    /\ e.resp.k = "Panic" /\ e.calls = <<>> /\ e.args.kind = "send" /\ Joined(mm)
+    /\ \/ (e.args.port = 0 /\ Len(e.args.data) > 0)
+       \/ 13 + (IF e.args.port = 0 THEN 0 ELSE Len(mm.sess.pending)) + Len(e.args.data) >= 256
+    /\ IsAllowed("send-misuse-panic")
 
 \* join / send request in Idle
 NbRequest(e) ==
@@ -264,6 +281,8 @@ NbRequest(e) ==
       IN
       IF StuckKnown(m1, isJoin, e) THEN
          /\ Known("no-usable-channel", <<m.region, e.resp.k, m1.cfg.dr>>) /\ m' = m1 /\ UNCHANGED fe
+      ELSE IF MisuseKnown(m, e) THEN
+         /\ Known("send-misuse-panic", <<e.args.port, Len(e.args.data)>>) /\ m' = m1 /\ UNCHANGED fe
       ELSE
          /\ Chk("nb one tx call", 1, Len(e.calls))
          /\ LET c == e.calls[1] IN
@@ -509,6 +528,8 @@ EvAProc(e) ==
       IN
       IF StuckKnown(m1, isJoin, e) THEN
          /\ Known("no-usable-channel", <<m.region, e.resp.k, m1.cfg.dr>>) /\ m' = m1 /\ UNCHANGED fe
+      ELSE IF MisuseKnown(m, e) THEN
+         /\ Known("send-misuse-panic", <<e.args.port, Len(e.args.data)>>) /\ m' = m1 /\ UNCHANGED fe
       ELSE
          /\ s1.ok
          /\ ChkT(<<"async: all calls consumed", s1.i - 1, Len(e.calls)>>, s1.i - 1 = Len(e.calls))
@@ -552,6 +573,7 @@ Match(e) ==
       [] e.ev = "set_adr" -> EvSetAdr(e)
       [] e.ev = "take_dl" -> EvTakeDl(e)
       [] e.ev = "serde" -> EvSerde(e)
+      [] e.ev = "set_session" -> EvSetSession(e)
       [] e.ev = "nb" -> EvNb(e)
       [] e.ev = "a_proc" -> EvAProc(e)
       [] e.ev = "a_rxc" -> EvARxc(e)
